@@ -33,6 +33,11 @@
     C03_reject_reserved_declaration, C03_reject_prefixed_undeclaration, C03_reject_pi_target_xml
                           (/repo 6153ddf, a5dcf8e, 002854f) the former witnesses against the clause are
                           now rejected, in every builder state; closed examples on strings
+    C03_reject_colon_without_prefix, C03_colon_check_passes, C03_reject_colon_tokens   (/repo a5fafb0) a name
+                          written with a colon and nothing in front of it - `<:a/>`, `<a :b='1'/>`, `</:a>`,
+                          which xmlparser lets through with an empty prefix positioned at the colon - is
+                          refused with `UnknownPrefix("", colon .. end of name)` in every builder state, nothing
+                          interned; an absent (offset 0) or non-empty prefix passes; the three texts as strings
 -/
 import XotModel.Lemmas.ParseSound
 import XotModel.Lemmas.ParseNoPanic
@@ -50,6 +55,8 @@ import XotModel.Lemmas.AcceptedWitness
 import XotModel.Props.C01
 import XotModel.Lemmas.BytesTotal
 import XotModel.Lemmas.ValidDoc
+import XotModel.Lemmas.ColonWitness
+import XotModel.Lemmas.ParseErase
 
 namespace XotModel.Props
 open XotModel XotModel.Witness
@@ -340,6 +347,60 @@ example : (build .document 17 Env.fresh xmlPiTokens none).err? = some (.invalidT
 example : ∃ env', parseString .document Env.fresh (renderTokens xmlPiMixedTokens) =
     .err (.invalidTarget ['X', 'm', 'L'] ⟨5, 8⟩) env' :=
   rejection_spec xmlPi_rejected.2.1 xmlPi_rejected.2.2
+
+/-! ### A name written with a colon and nothing in front of it (/repo a5fafb0)
+
+xmlparser 0.13.6 accepts `<:a/>`, `<a :b='1'/>`, `</:a>` (`consume_qname` returns an EMPTY prefix that is a
+slice of the source, positioned at the colon); they are not qualified names (Namespaces in XML 1.0,
+`QName ::= PrefixedName | UnprefixedName`, `Prefix ::= NCName`).  Before a5fafb0 xot read them as the
+unprefixed names `a`, `b` (and recorded a span without the colon: the former C17 findings).  Now
+`check_qname` refuses them, first thing in the `ElementStart`, `Attribute` and `ElementEnd::Close` arms: an
+ABSENT prefix is xmlparser's `"".into()` - offset 0, which no slice of a name can have. -/
+
+/-- **C03_reject_colon_without_prefix**: in EVERY builder state, an element start, an attribute or an
+    end tag whose prefix is empty and positioned in the text (offset ≠ 0) is refused with
+    `UnknownPrefix("", colon .. end of the local name)`, and nothing is interned. -/
+theorem C03_reject_colon_without_prefix (b : Builder) (pfx loc : StrSpan) (hp : pfx.text = [])
+    (hs : pfx.start ≠ 0) :
+    (∀ sp, b.step (.elementStart pfx loc sp) = .err (.unknownPrefix [] ⟨pfx.start, loc.stop⟩) b.env) ∧
+    (∀ v sp, b.step (.attribute pfx loc v sp) = .err (.unknownPrefix [] ⟨pfx.start, loc.stop⟩) b.env) ∧
+    (∀ sp, b.step (.elementEnd (.close pfx loc) sp) =
+      .err (.unknownPrefix [] ⟨pfx.start, loc.stop⟩) b.env) := by
+  have hb : pfx.bareColon = true := by simp [StrSpan.bareColon, hp, hs]
+  exact ⟨fun sp => b.step_refused_of (t := .elementStart pfx loc sp) rfl hb,
+    fun v sp => b.step_refused_of (t := .attribute pfx loc v sp) rfl hb,
+    fun sp => b.step_refused_of (t := .elementEnd (.close pfx loc) sp) rfl hb⟩
+
+/-- … and only those: an absent prefix (offset 0) or a non-empty one goes on to the builder as before. -/
+theorem C03_colon_check_passes (b : Builder) (pfx loc : StrSpan) (h : pfx.text ≠ [] ∨ pfx.start = 0) :
+    (∀ sp, b.step (.elementStart pfx loc sp) = .ok (b.element pfx loc)) ∧
+    (∀ sp, b.step (.elementEnd (.close pfx loc) sp) = b.closeElement pfx loc sp) := by
+  have hb : pfx.bareColon = false := by
+    rcases h with h | h
+    · exact StrSpan.bareColon_false_of_ne h
+    · exact StrSpan.bareColon_false_of_start h
+  exact ⟨fun sp => by simp only [Builder.step, hb, Bool.false_eq_true, if_false],
+    fun sp => by simp only [Builder.step, hb, Bool.false_eq_true, if_false]⟩
+
+/-- A token list with such a name anywhere is never accepted, whatever else it holds. -/
+theorem C03_reject_colon_tokens (m : Mode) (len : Nat) (env : Env) (ts : List Token) (le : Option Nat)
+    (h : tokensPrefixOk ts = false) (p : Parsed) : build m len env ts le ≠ .ok p := by
+  intro hp
+  rw [build_ok_prefixOk hp] at h
+  cases h
+
+/-- `<:a/>`, `<a :b='1'/>`, `<a></:a>` as STRINGS: the reference tokenizer accepts them (tokens in
+    Lemmas/ColonWitness.lean, evaluated in the kernel), `parse` refuses them with the span of the
+    WHOLE name as written - colon included - and the tables of `Xot::new()` are left as they were. -/
+example : parseString .document Env.fresh colonElementText = .err (.unknownPrefix [] ⟨1, 3⟩) Env.fresh := by
+  simp only [parseString, lexMode, lex_colonElement]; rfl
+example : parseString .document Env.fresh colonAttributeText = .err (.unknownPrefix [] ⟨3, 5⟩) Env.fresh := by
+  simp only [parseString, lexMode, lex_colonAttribute]; rfl
+example : (parseString .document Env.fresh colonEndTagText).err? = some (.unknownPrefix [] ⟨5, 7⟩) := by
+  simp only [parseString, lexMode, lex_colonEndTag]
+  rw [build_eq_buildE]; decide +kernel
+example : colonElementText = "<:a/>".toList ∧ colonAttributeText = "<a :b='1'/>".toList ∧
+    colonEndTagText = "<a></:a>".toList := by decide
 
 /-- `<a xmlns:p='u' xmlns:p='v'/>` is rejected at the second `xmlns:p`. -/
 example : (build .document prefixTwiceLen Env.fresh prefixTwice none).err? =
